@@ -136,37 +136,98 @@ class Fitted:
         return [r]
 
 
-def fit(name, data, dim, kw=None, rot_kw=None, base_name=None, weights=None):
-    """data: list of fields (each a DataArray / Dataset / list).  Returns Fitted."""
+def perturbed(d):
+    """other values in the same structure and with another covariance (rolled by one along the first axis, rescaled,
+    plus a quadratic term); lazy data stays lazy"""
+    if isinstance(d, (list, tuple)):
+        return [perturbed(x) for x in d]
+    return d.roll({list(d.dims)[0]: 1}, roll_coords=False) * 1.3 + 0.2 * d * d
+
+
+def _age(m, k, data, dim, weights):
+    """hostile history before the fit that is judged: the same object is fitted on other data of the same structure
+    and its accessors / inverse map are used (caches, flags and transformer state get filled).  Returns False when
+    that history could not be produced (the caller then starts from a fresh object)."""
+    try:
+        other = [perturbed(d) for d in data]
+        if k == "single":
+            m.fit(other[0], dim=dim, **({"weights": weights[0]} if weights else {}))
+            sc = [m.scores()]
+        elif k == "cross":
+            m.fit(other[0], other[1], dim=dim, **({"weights_X": weights[0], "weights_Y": weights[1]} if weights else {}))
+            sc = list(m.scores())
+        else:
+            m.fit(list(other), dim=dim)
+            sc = None
+        m.components()
+        for acc in ("filter_patterns", "eigenvalues", "explained_variance", "singular_values", "squared_covariance_fraction"):
+            fn = getattr(m, acc, None)
+            if callable(fn):
+                try:
+                    fn()
+                except Exception:  # noqa: BLE001
+                    pass
+        if sc is not None and hasattr(m, "inverse_transform"):
+            try:
+                m.inverse_transform(*sc)
+            except Exception:  # noqa: BLE001
+                pass
+        try:
+            if k == "cross":
+                m.transform(X=other[0], Y=other[1])
+            elif k == "single":
+                m.transform(other[0])
+        except Exception:  # noqa: BLE001
+            pass
+        return True
+    except Exception:  # noqa: BLE001
+        return False
+
+
+def fit(name, data, dim, kw=None, rot_kw=None, base_name=None, weights=None, aged=False):
+    """data: list of fields (each a DataArray / Dataset / list).  Returns Fitted.
+    aged=True: the model object has a history (see _age) before it is fitted on `data`."""
     k = kind(name)
     kw = dict(kw or {})
     with warnings.catch_warnings():
         warnings.simplefilter("ignore")
+        if k in ("single", "cross", "multi"):
+            m = make(name, **kw)
+            if aged and not _age(m, k, data, dim, weights):
+                m = make(name, **kw)
+                aged = False
         if k == "single":
-            m = make(name, **kw)
             m.fit(data[0], dim=dim, **({"weights": weights[0]} if weights else {}))
-            return Fitted(name, m, 1)
+            f = Fitted(name, m, 1)
+            f.aged = bool(aged)
+            return f
         if k == "cross":
-            m = make(name, **kw)
             wk = {}
             if weights:
                 wk = {"weights_X": weights[0], "weights_Y": weights[1]}
             m.fit(data[0], data[1], dim=dim, **wk)
-            return Fitted(name, m, 2)
+            f = Fitted(name, m, 2)
+            f.aged = bool(aged)
+            return f
         if k == "multi":
-            m = make(name, **kw)
             m.fit(list(data), dim=dim)
-            return Fitted(name, m, len(data))
+            f = Fitted(name, m, len(data))
+            f.aged = bool(aged)
+            return f
         if k == "single_rot":
             bn = base_name or SINGLE_ROT[name]
-            base = fit(bn, data, dim, kw, weights=weights)
+            base = fit(bn, data, dim, kw, weights=weights, aged=aged)
             r = make(name, **(rot_kw or {"n_modes": kw.get("n_modes", 2)}))
             r.fit(base.model)
-            return Fitted(name, r, 1, base=base)
+            f = Fitted(name, r, 1, base=base)
+            f.aged = bool(getattr(base, "aged", False))
+            return f
         if k == "cross_rot":
             bn = base_name or CROSS_ROT[name][0]
-            base = fit(bn, data, dim, kw, weights=weights)
+            base = fit(bn, data, dim, kw, weights=weights, aged=aged)
             r = make(name, **(rot_kw or {"n_modes": kw.get("n_modes", 2)}))
             r.fit(base.model)
-            return Fitted(name, r, 2, base=base)
+            f = Fitted(name, r, 2, base=base)
+            f.aged = bool(getattr(base, "aged", False))
+            return f
     raise KeyError(name)
